@@ -272,6 +272,12 @@ func (runInfo *runInfoStruct) invokeDerefExpr(expr *ast.DerefExpr) {
 		runInfo.rv = nilValue
 		return
 	}
+	if runInfo.rv.IsNil() {
+		// Elem of a nil pointer is the invalid Value, which panics on its first use
+		runInfo.err = newStringError(expr.Expr, "cannot deference nil pointer")
+		runInfo.rv = nilValue
+		return
+	}
 	runInfo.rv = runInfo.rv.Elem()
 }
 
